@@ -21,12 +21,12 @@ CONSTANTS
   Kinds,        \* proposal message kinds
   Latests,      \* `latest` arguments tried by Propose
   Weights,      \* weights used by group updates (-1 = remove)
-  GenMode, GenDepth
+  GenMode, GenDepth, GenFail, SampleK
 
 VARIABLES stored, upd, sched, cfgv
 
 mcvars == <<vars, stored, upd, sched, cfgv>>
-View == <<svars, hvars, stored, upd, IF GenMode THEN Len(sched) ELSE 0>>
+View == <<svars, hvars, stored, upd, IF GenMode /\ GenFail THEN Len(sched) ELSE 0>>
 
 Users == Addr
 MsgOf(kind) == IF kind = "none" THEN <<>> ELSE <<[k |-> "msg", tag |-> kind, a |-> "", b |-> "", amt |-> 0]>>
@@ -157,7 +157,7 @@ Call(e, action) ==
      /\ ev' = [e EXCEPT !.ok = TRUE]
      /\ UNCHANGED <<cfg, cfgv>>
      /\ sched' = IF GenMode THEN Append(sched, e) ELSE sched
-  \/ /\ GenMode /\ ~ENABLED action
+  \/ /\ GenMode /\ GenFail /\ ~ENABLED action
      /\ ev' = [e EXCEPT !.ok = FALSE]
      /\ UNCHANGED <<svars, hvars, stored, upd, cfgv>>
      /\ sched' = Append(sched, e)
@@ -223,4 +223,8 @@ KindsGen == {"none", "sink", "sink2", "bank", "bankbig", "flaky", "reexec", "rec
 
 EmitSchedule ==
   (GenMode /\ Len(sched) = GenDepth) => PrintT(<<"SCHED", ToJson([cfg |-> cfgv, steps |-> sched])>>)
+\* sampled breadth-first generation: the BFS path of every SampleK-th distinct state of the model
+EmitSampled ==
+  (GenMode /\ ~GenFail /\ Len(sched) > 0 /\ TLCGet("distinct") % SampleK = 0) =>
+     PrintT(<<"SCHED", ToJson([cfg |-> cfgv, steps |-> sched])>>)
 =============================================================================
